@@ -31,7 +31,9 @@ class SymbolicTensor:
         """
         if axes is None:
             axes = list(reversed(range(self.ndim)))
-        if len(set(axes)) != len(axes):
+        # negative indices count from the last axis, as for numpy.transpose
+        axes = [ax + self.ndim if ax < 0 else ax for ax in axes]
+        if sorted(axes) != list(range(self.ndim)):
             raise ValueError(f"axes = {axes} is not a valid permutation")
         self.shape = tuple(self.shape[ax] for ax in axes)
         self.bids  =       [self.bids[ax] for ax in axes]
